@@ -18,7 +18,7 @@ var names = []string{"a", "b", "a ", " a", "\ta\n", "A", "ab", "", " ", "_x", "_
 func gen(r *h.Rand, tier string, emit func([]string)) {
 	ncases, nops := 1500, 30
 	if tier == "thorough" {
-		ncases, nops = 20000, 45
+		ncases, nops = 12000, 45
 	}
 	for c := 0; c < ncases; c++ {
 		var ops []string
